@@ -35,9 +35,23 @@ Proof.
   repeat match goal with H : _ = _ |- _ => vm_compute in H; try discriminate H end.
 Qed.
 
+Lemma N_ltb_Z a b : (a <? b)%N = (Z.of_N a <? Z.of_N b).
+Proof. destruct (a <? b)%N eqn:E1; destruct (Z.of_N a <? Z.of_N b) eqn:E2; try reflexivity;
+  try (apply N.ltb_lt in E1); try (apply N.ltb_ge in E1); try (apply Z.ltb_lt in E2); try (apply Z.ltb_ge in E2); lia. Qed.
+Lemma N_leb_Z a b : (a <=? b)%N = (Z.of_N a <=? Z.of_N b).
+Proof. destruct (a <=? b)%N eqn:E1; destruct (Z.of_N a <=? Z.of_N b) eqn:E2; try reflexivity;
+  try (apply N.leb_le in E1); try (apply N.leb_gt in E1); try (apply Z.leb_le in E2); try (apply Z.leb_gt in E2); lia. Qed.
+
 Lemma is_fork_active_agrees o en h ch ce : gen_is_fork_active o en h ch ce = is_fork_active o en h ch ce.
 Proof.
-  destruct o as [[[oh|] [oe|]]|]; simpl; try reflexivity. destruct en; reflexivity.
+  unfold gen_is_fork_active, gen_is_fork_active_flat, is_fork_active.
+  destruct o as [[[oh|] [oe|]]|], en; cbn [negb]; try reflexivity;
+    try (rewrite N_leb_Z; reflexivity);
+    repeat match goal with
+           | |- context [Z.leb ?a ?b] => destruct (Z.leb_spec a b)
+           | |- context [Z.ltb ?a ?b] => destruct (Z.ltb_spec a b)
+           | |- context [N.leb ?a ?b] => rewrite (N_leb_Z a b)
+           end; cbn [negb andb orb]; try reflexivity; try (exfalso; lia).
 Qed.
 
 Lemma num_required_agrees c :
@@ -45,19 +59,26 @@ Lemma num_required_agrees c :
   Z.of_N (num_required_transition c) =
   gen_num_required_transition (Z.of_nat (List.length (c_keypers c))) (Z.of_N (c_threshold c)).
 Proof.
-  intros Hlen. unfold num_required_transition, gen_num_required_transition, two63 in *.
+  (* decided by cases on every comparison atom of either side, so that a rephrased test in the
+     source (n < 1 for n == 0, the comparison turned around with the branches swapped) passes *)
+  intros Hlen. unfold num_required_transition, gen_num_required_transition, two63 in *. cbv zeta.
   set (n := Z.of_nat (List.length (c_keypers c))) in *.
   assert (Hn : 0 <= n) by (unfold n; lia).
-  destruct (n =? 0) eqn:E0; [reflexivity|]. apply Z.eqb_neq in E0.
-  rewrite (Z.quot_div_nonneg (n + 2) 3) by lia.
-  set (d := n - (n + 2) / 3 + 1).
-  assert (Hd : 0 < d <= n + 1).
-  { unfold d. pose proof (Z.div_mod (n + 2) 3 ltac:(lia)). pose proof (Z.mod_pos_bound (n + 2) 3 ltac:(lia)). lia. }
-  rewrite (Z.mod_small d) by lia.
-  destruct (Z.to_N d <=? c_threshold c)%N eqn:E1; destruct (d <=? Z.of_N (c_threshold c)) eqn:E2; try reflexivity.
-  - apply N.leb_le in E1. apply Z.leb_gt in E2. lia.
-  - apply N.leb_gt in E1. apply Z.leb_le in E2. lia.
-  - rewrite Z2N.id by lia. reflexivity.
+  rewrite ?(Z.quot_div_nonneg (n + 2) 3) by lia.
+  pose proof (Z.div_mod (n + 2) 3 ltac:(lia)) as Hdm.
+  pose proof (Z.mod_pos_bound (n + 2) 3 ltac:(lia)) as Hmb.
+  set (q := (n + 2) / 3) in *.
+  assert (Hd : 0 < n - q + 1 <= n + 1) by lia.
+  rewrite ?(Z.mod_small (n - q + 1) 18446744073709551616) by lia.
+  rewrite N_leb_Z, Z2N.id by lia.
+  set (t := Z.of_N (c_threshold c)).
+  assert (Ht : 0 <= t) by (unfold t; lia).
+  repeat match goal with
+         | |- context [Z.eqb ?a ?b] => destruct (Z.eqb_spec a b)
+         | |- context [Z.ltb ?a ?b] => destruct (Z.ltb_spec a b)
+         | |- context [Z.leb ?a ?b] => destruct (Z.leb_spec a b)
+         end;
+  try reflexivity; try (rewrite Z2N.id by lia); try (fold t); try lia.
 Qed.
 
 (* Deciding boolean combinations of integer comparisons: split on every comparison atom of the
@@ -76,12 +97,7 @@ Lemma nat_eqb0_Z n : Nat.eqb n 0 = (Z.of_nat n =? 0).
 Proof. destruct n; reflexivity. Qed.
 Lemma N_eqb0_Z n : N.eqb n 0 = (Z.of_N n =? 0).
 Proof. destruct n; reflexivity. Qed.
-Lemma N_ltb_Z a b : (a <? b)%N = (Z.of_N a <? Z.of_N b).
-Proof. destruct (a <? b)%N eqn:E1; destruct (Z.of_N a <? Z.of_N b) eqn:E2; try reflexivity;
-  try (apply N.ltb_lt in E1); try (apply N.ltb_ge in E1); try (apply Z.ltb_lt in E2); try (apply Z.ltb_ge in E2); lia. Qed.
-Lemma N_leb_Z a b : (a <=? b)%N = (Z.of_N a <=? Z.of_N b).
-Proof. destruct (a <=? b)%N eqn:E1; destruct (Z.of_N a <=? Z.of_N b) eqn:E2; try reflexivity;
-  try (apply N.leb_le in E1); try (apply N.leb_gt in E1); try (apply Z.leb_le in E2); try (apply Z.leb_gt in E2); lia. Qed.
+
 
 (* BatchConfig.EnsureValid and ShutterApp.checkConfig, as read off the source on this run,
    decide what the model's ensure_valid / check_config decide (for slices of Go-representable
